@@ -686,8 +686,16 @@ class Gen:
             self.features.add('exception')
             inner = self.allsol(vs, 'L', throwing=True)
             g = S(',', S('catch', inner, S('oops', V('E')), TRUE), self.allsol(vs, 'M', kind='findall'))
-            if r.random() < 0.3:
+            k = r.random()
+            if k < 0.25:
                 g = S(',', inner, S('=', V('M'), A('not_reached')))
+            elif k < 0.6:
+                # the generator of an outer findall catches the ball of an inner all-solutions call
+                # that had already collected some solutions (cleanup of the lifted heap)
+                self.features.add('exception-inside-outer-findall')
+                o = self.lit(['O', 'O2'])
+                g = S('findall', S('-', V('O'), V('E')),
+                      S(',', o, S('catch', inner, S('oops', V('E')), TRUE)), V('M'))
         elif x < 0.92:
             form = 'error'
             self.features.add('ill-typed')
@@ -793,7 +801,11 @@ def directed_cases():
         S('findall', X, S(',', fx, FAIL), L),
         S('findall', X, fx, L, V('T')), S('findall', X, fx, L, lst([A('z')], V('T'))),
         S('findall', X, fx, lst([V('E1'), V('E2')], V('L2')), NIL),
-        S('bagof', X, S(g, X, Y), L), S('setof', Y, S('^', X, S(g, X, Y)), L),
+        S('bagof', X, S(g, X, Y), L), S('setof', Y, S('^', X, S(g, X, Y)), L), S('setof', X, S(g, X, Y), L),
+        S('findall', X, S(',', fx, FAIL), L, lst([A('z')], V('T'))),
+        S('findall', S('-', X, V('E')), S(',', S(g, X, A('a')),
+                                          S('catch', S('findall', Y, S(',', fx, S(';', S('->', S('==', Z, A('q')), S('throw', S('oops', Y))), TRUE)), V('_I')),
+                                            S('oops', V('E')), TRUE)), L),
         S('bagof', S('-', X, Y), S(g, X, Y), L),
         S('bagof', X, S('^', Y, V('G')), L),
         S('bagof', S('-', Y, V('L1')), S('setof', X, S('^', Z, fx), V('L1')), L),
